@@ -30,10 +30,9 @@ pub fn exec(lhs: Variable, rhs: Variable) -> Variable {
 }
 
 pub fn return_type(lhs: Type, rhs: Type) -> Type {
-    let Some(lhs_element) = lhs.element_type() else {
+    let (Some(lhs_element), Some(rhs_element)) = (lhs.element_type(), rhs.element_type()) else {
         return lhs;
     };
-    let rhs_element = rhs.element_type().unwrap();
     var_type!([lhs_element | rhs_element])
 }
 
